@@ -2,6 +2,7 @@ import T4V.Proofs.Macro
 import T4V.Proofs.RealOK
 import T4V.Proofs.Transform
 import T4V.Proofs.Rot
+import T4V.Props.C02
 /-!
 # Property C03 — macrobodies: interior, exterior and numbered facets
 
@@ -9,8 +10,8 @@ Model: `T4V.Model.Macro` (`MacroBodies.py`: body ↦ facets `(mnemonic, paramete
 like an ordinary card, `SurfaceCollection.join`).  Spec: `bodyFacets` (`T4V.Spec.MCNP`): MCNP's facets in
 MCNP's numbering as outward implicit functions.  `BodyOK coll gs`: the k-th emitted signed surface is the
 k-th facet (same zero set, outward side positive).  Proved for RPP, SPH, BOX (either handedness), RCC,
-RHP/HEX with 9 and 15 entries, WED, REC with 10 and 12 entries, TRC and ELL in both forms, any orientation; ARB
-is checked by the spec monitor and the `macromodel` correspondence only.
+RHP/HEX with 9 and 15 entries, WED, REC with 10 and 12 entries, TRC and ELL in both forms, any orientation, and ARB
+with any admissible descriptors: every macrobody of the converter.
 -/
 set_option linter.unusedSectionVars false
 set_option linter.unusedSimpArgs false
@@ -742,4 +743,363 @@ theorem rhp9_ok (ok : TranscOK α) (toNat : α → Nat) (vx vy vz hx hy hz rx ry
 example : ∃ coll gs, convertMacro (0:ℝ) 0 "rhp" [1, 2, 3, 0, 3, 4, 2, 0, 0] = some coll ∧
     bodyFacets "rhp" [1, 2, 3, 0, 3, 4, 2, 0, 0] (fun _ => 0) = some gs ∧ BodyOK coll gs :=
   rhp9_ok transcOK_real _ 1 2 3 0 3 4 2 0 0 (by norm_num [V3.dot]) (by norm_num [V3.dot])
+end T4V.C03
+
+/-! ### ARB: vertex table, facet descriptors, orientation by the centroid -/
+
+namespace T4V.C03
+open T4V T4V.Surf T4V.Macro T4V.Tr T4V.C02
+variable {α : Type} [Field α] [LinearOrder α] [IsStrictOrderedRing α] [Transc α]
+
+/-- one facet of `arb`, as computed inside `MacroBodies.arb`: the plane through three vertices, normal turned away from
+the centroid -/
+def arbFacetPart (cen p1 p2 p3 : V3 α) : Option (Part α) :=
+  match planeFromPoints (0:α) 0 p1 p2 p3 with
+  | some [a, b, c, d] =>
+      let dist := cen.sub p1
+      if (0:α) < dist.x * a + dist.y * b + dist.z * c then some ("p", [-a, -b, -c, -d], 1)
+      else some ("p", [a, b, c, d], 1)
+  | _ => none
+
+/-- MCNP's facet: the plane through the three vertices, outward = away from the centroid -/
+def arbFacetSpec (cen p1 p2 p3 : V3 α) : V3 α → α :=
+  let g := planeOut ((p2.sub p1).cross (p3.sub p1)) p1
+  if g cen < 0 then g else fun p => -(g p)
+
+theorem planeFromPoints_eq (ok : TranscOK α) (p1 p2 p3 : V3 α)
+    (h : 0 < ((p1.sub p2).cross (p1.sub p3)).norm2) :
+    planeFromPoints (0:α) 0 p1 p2 p3 =
+      (let n := (p1.sub p2).cross (p1.sub p3); let s := Transc.sqrt n.norm2
+       some (if flip3 n (n.dot p1) then [-(1 / s * n.x), -(1 / s * n.y), -(1 / s * n.z), -(1 / s * n.dot p1)]
+             else [1 / s * n.x, 1 / s * n.y, 1 / s * n.z, 1 / s * n.dot p1])) := by
+  generalize hn : (p1.sub p2).cross (p1.sub p3) = n at h
+  have hs := ok.sqrt_pos _ h
+  have hc : 0 < 1 / Transc.sqrt n.norm2 := by positivity
+  have hnz : ¬ (n.x = 0 ∧ n.y = 0 ∧ n.z = 0) := by
+    rintro ⟨a, b, c⟩; simp [V3.norm2, V3.dot, a, b, c] at h
+  have hl : ¬ (n.norm2 < 0 ∨ n.norm2 = 0) := by
+    rintro (h' | h') <;> [exact absurd h (not_lt.mpr h'.le); exact absurd h (h' ▸ lt_irrefl _)]
+  have hpos : (V3.smul (1 / Transc.sqrt n.norm2) n).dot p1 = 1 / Transc.sqrt n.norm2 * n.dot p1 := by
+    simp only [V3.dot, V3.smul]; ring
+  unfold planeFromPoints
+  simp only [hn, Bool.or_eq_true, decide_eq_true_eq, beq_iff_eq, hl, if_false, hpos]
+  exact orient_spec (1 / Transc.sqrt n.norm2) hc n (n.dot p1) hnz _ _
+
+/-- **one ARB facet**: three vertices not on a line, centroid not in their plane: the emitted plane is the facet's plane
+with the centroid on its negative side -/
+theorem arb_facet (ok : TranscOK α) (cen p1 p2 p3 : V3 α)
+    (h : 0 < ((p1.sub p2).cross (p1.sub p3)).norm2)
+    (hcen : planeOut ((p2.sub p1).cross (p3.sub p1)) p1 cen ≠ 0) :
+    ∃ part t, arbFacetPart cen p1 p2 p3 = some part ∧ part.2.2 = 1 ∧
+      convertCard (0:α) 0 part.1 part.2.1 = some [(t, 1)] ∧ Same t (arbFacetSpec cen p1 p2 p3) := by
+  have hpf := planeFromPoints_eq ok p1 p2 p3 h
+  have hnS : (p2.sub p1).cross (p3.sub p1) = (p1.sub p2).cross (p1.sub p3) := by
+    apply V3.ext' <;> simp only [V3.cross, V3.sub] <;> ring
+  rw [hnS] at hcen
+  unfold arbFacetSpec
+  rw [hnS]
+  generalize hn : (p1.sub p2).cross (p1.sub p3) = n at h hpf hcen
+  have hs := ok.sqrt_pos _ h
+  have hss := ok.sqrt_sq _ h.le
+  simp only at hpf
+  generalize hsd : Transc.sqrt n.norm2 = s at hs hss hpf
+  have hc : 0 < 1 / s := by positivity
+  have hs0 := hs.ne'
+  have hsq : (1 / s * n.x) * (1 / s * n.x) + (1 / s * n.y) * (1 / s * n.y) + (1 / s * n.z) * (1 / s * n.z) = 1 := by
+    have : n.x * n.x + n.y * n.y + n.z * n.z = s * s := by rw [hss]; rfl
+    field_simp
+    linear_combination this
+  have hsq' : (-(1 / s * n.x)) * (-(1 / s * n.x)) + (-(1 / s * n.y)) * (-(1 / s * n.y)) + (-(1 / s * n.z)) * (-(1 / s * n.z)) = 1 := by
+    linear_combination hsq
+  have hg : ∀ p, planeOut n p1 p = n.x * (p.x - p1.x) + n.y * (p.y - p1.y) + n.z * (p.z - p1.z) := by
+    intro p; simp only [planeOut, V3.dot, V3.sub]
+  -- the two possible cards
+  obtain ⟨tP, hP, sP⟩ := plane_part ok (1 / s * n.x) (1 / s * n.y) (1 / s * n.z) (1 / s * n.dot p1) (by rw [hsq]; exact one_pos)
+  obtain ⟨tF, hF, sF⟩ := plane_part ok (-(1 / s * n.x)) (-(1 / s * n.y)) (-(1 / s * n.z)) (-(1 / s * n.dot p1))
+    (by rw [hsq']; exact one_pos)
+  have eP : ∀ p, (1 / s * n.x) * p.x + (1 / s * n.y) * p.y + (1 / s * n.z) * p.z - 1 / s * n.dot p1 = (1 / s) * planeOut n p1 p := by
+    intro p; rw [hg]; simp only [V3.dot]; ring
+  have eF : ∀ p, (-(1 / s * n.x)) * p.x + (-(1 / s * n.y)) * p.y + (-(1 / s * n.z)) * p.z - -(1 / s * n.dot p1) =
+      (1 / s) * -(planeOut n p1 p) := by
+    intro p; rw [hg]; simp only [V3.dot]; ring
+  have sP' : Same tP (planeOut n p1) := same_scale sP (1 / s) hc eP
+  have sF' : Same tF (fun p => -(planeOut n p1 p)) := same_scale sF (1 / s) hc eF
+  -- the sign of the test `0 < dist · (a, b, c)` is the sign of ±g(centroid)
+  have dP : (cen.sub p1).x * (1 / s * n.x) + (cen.sub p1).y * (1 / s * n.y) + (cen.sub p1).z * (1 / s * n.z) =
+      (1 / s) * planeOut n p1 cen := by rw [hg]; simp only [V3.sub]; ring
+  have dF : (cen.sub p1).x * -(1 / s * n.x) + (cen.sub p1).y * -(1 / s * n.y) + (cen.sub p1).z * -(1 / s * n.z) =
+      -((1 / s) * planeOut n p1 cen) := by rw [hg]; simp only [V3.sub]; ring
+  unfold arbFacetPart
+  rw [hpf]
+  rcases lt_or_gt_of_ne hcen with hneg | hposc
+  · -- centroid on the negative side of g: the outward function is g
+    have hm : (1 / s) * planeOut n p1 cen < 0 := mul_neg_of_pos_of_neg hc hneg
+    rw [if_pos hneg]
+    by_cases hf : flip3 n (n.dot p1) = true
+    · simp only [hf, if_true, dF]
+      rw [if_pos (by linarith)]
+      exact ⟨_, tP, rfl, rfl, by simpa using hP, sP'⟩
+    · simp only [hf, Bool.false_eq_true, if_false, dP]
+      rw [if_neg (by linarith)]
+      exact ⟨_, tP, rfl, rfl, hP, sP'⟩
+  · have hm : 0 < (1 / s) * planeOut n p1 cen := mul_pos hc hposc
+    rw [if_neg (not_lt.mpr hposc.le)]
+    by_cases hf : flip3 n (n.dot p1) = true
+    · simp only [hf, if_true, dF]
+      rw [if_neg (by linarith)]
+      exact ⟨_, tF, rfl, rfl, hF, sF'⟩
+    · simp only [hf, Bool.false_eq_true, if_false, dP]
+      rw [if_pos hm]
+      exact ⟨_, tF, rfl, rfl, hF, sF'⟩
+end T4V.C03
+
+namespace T4V.C03
+open T4V T4V.Surf T4V.Macro T4V.Tr T4V.C02
+variable {α : Type} [Field α] [LinearOrder α] [IsStrictOrderedRing α] [Transc α]
+
+/-! #### descriptors, vertices, centroid: the vocabulary of the ARB statement (MCNP's reading, `Spec.MCNP`) -/
+
+def predNZ (l : List Nat) : List Nat := (l.filter (· != 0)).map (· - 1)
+
+theorem facetDigits_go (fuel : Nat) : ∀ (m : Nat) (acc : List Nat),
+    T4V.facetDigits.go fuel m (predNZ acc) = predNZ (digits.go fuel m acc) := by
+  induction fuel with
+  | zero => intro m acc; rfl
+  | succ f ih =>
+    intro m acc
+    unfold T4V.facetDigits.go T4V.digits.go
+    by_cases hm : (m == 0) = true
+    · simp only [hm, if_true]
+    · simp only [hm, Bool.false_eq_true, if_false]
+      rw [← ih]
+      congr 1
+      by_cases hd : (m % 10 == 0) = true
+      · have : (m % 10 != 0) = false := by simp [bne, hd]
+        simp [predNZ, hd, List.filter_cons, this]
+      · have : (m % 10 != 0) = true := by simp [bne, hd]
+        simp [predNZ, hd, List.filter_cons, this]
+
+theorem facetDigits_eq (n : Nat) : facetDigits n = predNZ (digits n) := by
+  unfold facetDigits digits
+  exact facetDigits_go 20 n []
+end T4V.C03
+
+namespace T4V.C03
+open T4V T4V.Surf T4V.Macro T4V.Tr T4V.C02
+variable {α : Type} [Field α] [LinearOrder α] [IsStrictOrderedRing α] [Transc α]
+
+/-- the eight vertex triples of the card -/
+def arbAllVerts (ps : List α) : List (V3 α) :=
+  (List.range 8).filterMap fun i =>
+    match ps.drop (3 * i) with
+    | x :: y :: z :: _ => some ⟨x, y, z⟩
+    | _ => none
+
+/-- the non-empty facet descriptors, as lists of 1-based vertex numbers -/
+def arbFacets (ps : List α) (toNat : α → Nat) : List (List Nat) :=
+  ((ps.drop 24).map fun d => (digits (toNat d)).filter (· != 0)).filter (!·.isEmpty)
+
+/-- the vertices in use (as many as there are distinct vertex numbers) and their centroid -/
+def arbVerts (ps : List α) (toNat : α → Nat) : List (V3 α) :=
+  (arbAllVerts ps).take ((arbFacets ps toNat).flatMap id).eraseDups.length
+def arbCentroid (ps : List α) (toNat : α → Nat) : V3 α :=
+  let vs := arbVerts ps toNat
+  V3.smul (1 / vs.foldl (fun acc _ => acc + 1) (0:α)) (vs.foldl V3.add V3.zero)
+
+/-- MCNP's reading of a facet descriptor (`Spec.MCNP.bodyFacets "arb"`) -/
+def arbFacetOfS (vs : List (V3 α)) (cen : V3 α) (fc : List Nat) : Option (V3 α → α) :=
+  match fc with
+  | i :: j :: k :: _ =>
+      match vs[i - 1]?, vs[j - 1]?, vs[k - 1]? with
+      | some p1, some p2, some p3 => some (arbFacetSpec cen p1 p2 p3)
+      | _, _, _ => none
+  | _ => none
+
+/-- the converter's reading (`MacroBodies.arb`, on 0-based vertex numbers) -/
+def arbFacetOfM (vs : List (V3 α)) (cen : V3 α) (fc : List Nat) : Option (Part α) :=
+  match fc with
+  | i :: j :: k :: _ =>
+      match vs[i]?, vs[j]?, vs[k]? with
+      | some p1, some p2, some p3 => arbFacetPart cen p1 p2 p3
+      | _, _, _ => none
+  | _ => none
+
+theorem bodyFacets_arb (ps : List α) (toNat : α → Nat) (hlen : ps.length = 30) :
+    bodyFacets "arb" ps toNat =
+      (arbFacets ps toNat).mapM (arbFacetOfS (arbVerts ps toNat) (arbCentroid ps toNat)) := by
+  have h30 : (ps.length != 30) = false := by simp [hlen]
+  show (if ps.length != 30 then none else _) = _
+  rw [h30]
+  rfl
+
+theorem eraseDups_map_inj {f : Nat → Nat} : ∀ (l : List Nat), (∀ a ∈ l, ∀ b ∈ l, f a = f b → a = b) →
+    (l.map f).eraseDups = l.eraseDups.map f
+  | [], _ => rfl
+  | a :: as, hinj => by
+      rw [List.map_cons, List.eraseDups_cons, List.eraseDups_cons, List.map_cons]
+      congr 1
+      have hf : (as.map f).filter (fun b => !b == f a) = (as.filter fun b => !b == a).map f := by
+        rw [List.filter_map]
+        congr 1
+        apply List.filter_congr
+        intro b hb
+        simp only [Function.comp]
+        by_cases hba : b = a
+        · subst hba; simp
+        · have : f b ≠ f a := fun h => hba (hinj b (List.mem_cons_of_mem _ hb) a (List.mem_cons_self) h)
+          simp [hba, this]
+      rw [hf]
+      have : (as.filter fun b => !b == a).length < as.length + 1 := Nat.lt_succ_of_le (List.length_filter_le _ _)
+      exact eraseDups_map_inj _ (fun x hx y hy h =>
+        hinj x (List.mem_cons_of_mem _ (List.mem_filter.mp hx).1) y (List.mem_cons_of_mem _ (List.mem_filter.mp hy).1) h)
+termination_by l => l.length
+
+theorem arbFacets_nonzero (ps : List α) (toNat : α → Nat) : ∀ fc ∈ arbFacets ps toNat, ∀ i ∈ fc, i ≠ 0 := by
+  intro fc hfc i hi
+  unfold arbFacets at hfc
+  obtain ⟨hfc', _⟩ := List.mem_filter.mp hfc
+  rw [List.mem_map] at hfc'
+  obtain ⟨d, _, rfl⟩ := hfc'
+  have := (List.mem_filter.mp hi).2
+  simpa using this
+
+/-- the converter's facet list is MCNP's, with 0-based numbers -/
+theorem arbFacets_model (ps : List α) (toNat : α → Nat) :
+    (((ps.drop 24).map fun d => facetDigits (toNat d)).filter (!·.isEmpty)) =
+      (arbFacets ps toNat).map (fun fc => fc.map (· - 1)) := by
+  unfold arbFacets
+  have hd : ∀ d : α, facetDigits (toNat d) = ((digits (toNat d)).filter (· != 0)).map (· - 1) := fun d => facetDigits_eq _
+  generalize ps.drop 24 = l
+  induction l with
+  | nil => rfl
+  | cons d l ih =>
+    simp only [List.map_cons, List.filter_cons]
+    rw [hd d]
+    by_cases he : ((digits (toNat d)).filter (· != 0)).isEmpty = true
+    · simp only [List.isEmpty_map, he, Bool.not_true, Bool.false_eq_true, if_false]
+      exact ih
+    · simp only [List.isEmpty_map, he, Bool.not_false, if_true, List.map_cons]
+      rw [ih]
+end T4V.C03
+
+namespace T4V.C03
+open T4V T4V.Surf T4V.Macro T4V.Tr T4V.C02
+variable {α : Type} [Field α] [LinearOrder α] [IsStrictOrderedRing α] [Transc α]
+
+theorem used_eq (fs : List (List Nat)) (hnz : ∀ fc ∈ fs, ∀ i ∈ fc, i ≠ 0) :
+    ((fs.map fun fc => fc.map (· - 1)).flatten.eraseDups).length = (fs.flatMap id).eraseDups.length := by
+  have h1 : (fs.map fun fc => fc.map (· - 1)).flatten = fs.flatten.map (· - 1) := by
+    rw [List.map_flatten]
+  have h2 : fs.flatMap id = fs.flatten := by simp [List.flatMap_def]
+  rw [h1, h2, eraseDups_map_inj, List.length_map]
+  intro a ha b hb hab
+  rw [List.mem_flatten] at ha hb
+  obtain ⟨fa, hfa, haa⟩ := ha
+  obtain ⟨fb, hfb, hbb⟩ := hb
+  have := hnz fa hfa a haa
+  have := hnz fb hfb b hbb
+  omega
+
+theorem arbParts_eq (ps : List α) (toNat : α → Nat) (hlen : ps.length = 30) :
+    arbParts (0:α) 0 toNat ps =
+      ((arbFacets ps toNat).map fun fc => fc.map (· - 1)).mapM
+        (arbFacetOfM (arbVerts ps toNat) (arbCentroid ps toNat)) := by
+  have h30 : (ps.length != 30) = false := by simp [hlen]
+  unfold arbParts
+  rw [h30]
+  simp only [Bool.false_eq_true, if_false]
+  rw [arbFacets_model, used_eq _ (arbFacets_nonzero ps toNat)]
+  rfl
+end T4V.C03
+
+namespace T4V.C03
+open T4V T4V.Surf T4V.Macro T4V.Tr T4V.C02
+variable {α : Type} [Field α] [LinearOrder α] [IsStrictOrderedRing α] [Transc α]
+
+/-- MCNP's admissibility of one facet descriptor: at least three vertex numbers, the first three designate vertices of
+the card that are not on a line, and the centroid of the vertices is not in their plane -/
+def FacetAdm (vs : List (V3 α)) (cen : V3 α) (fc : List Nat) : Prop :=
+  ∃ i j k rest p1 p2 p3, fc = i :: j :: k :: rest ∧ vs[i - 1]? = some p1 ∧ vs[j - 1]? = some p2 ∧ vs[k - 1]? = some p3 ∧
+    0 < ((p1.sub p2).cross (p1.sub p3)).norm2 ∧ planeOut ((p2.sub p1).cross (p3.sub p1)) p1 cen ≠ 0
+
+theorem arb_list (ok : TranscOK α) (vs : List (V3 α)) (cen : V3 α) :
+    ∀ (fs : List (List Nat)), (∀ fc ∈ fs, FacetAdm vs cen fc) →
+    ∃ parts coll gs, (fs.map fun fc => fc.map (· - 1)).mapM (arbFacetOfM vs cen) = some parts ∧
+      parts.mapM (fun (x : Part α) => (convertCard (0:α) 0 x.1 x.2.1).map fun coll => coll.map fun (t, s) => (t, s * x.2.2)) = some coll ∧
+      fs.mapM (arbFacetOfS vs cen) = some gs ∧ BodyOK coll.flatten gs
+  | [], _ => ⟨[], [], [], rfl, rfl, rfl, .nil⟩
+  | fc :: fs, h => by
+      obtain ⟨i, j, k, rest, p1, p2, p3, rfl, h1, h2, h3, hnc, hcen⟩ := h _ (List.mem_cons_self)
+      obtain ⟨parts, coll, gs, e1, e2, e3, hb⟩ := arb_list ok vs cen fs (fun fc hfc => h fc (List.mem_cons_of_mem _ hfc))
+      obtain ⟨part, t, hp, hside, hconv, hsame⟩ := arb_facet ok cen p1 p2 p3 hnc hcen
+      refine ⟨part :: parts, [(t, 1)] :: coll, arbFacetSpec cen p1 p2 p3 :: gs, ?_, ?_, ?_, ?_⟩
+      · simp only [List.map_cons, List.mapM_cons, arbFacetOfM, h1, h2, h3, hp, e1, Option.bind_eq_bind,
+          Option.bind_some, Option.pure_def]
+      · simp only [List.mapM_cons, hconv, hside, e2, Option.map_some, Option.bind_eq_bind, Option.bind_some,
+          Option.pure_def, List.map_cons, List.map_nil, mul_one]
+      · simp only [List.mapM_cons, arbFacetOfS, h1, h2, h3, e3, Option.bind_eq_bind, Option.bind_some, Option.pure_def]
+      · simp only [List.flatten_cons, List.cons_append, List.nil_append]
+        exact .cons (Or.inl ⟨rfl, hsame⟩) hb
+
+/-- **ARB**: eight vertex triples and six facet descriptors (any number of them empty), every non-empty descriptor
+admissible: the k-th emitted surface is the plane of the k-th non-empty descriptor, with the centroid inside -/
+theorem arb_ok (ok : TranscOK α) (toNat : α → Nat) (ps : List α) (hlen : ps.length = 30)
+    (hadm : ∀ fc ∈ arbFacets ps toNat, FacetAdm (arbVerts ps toNat) (arbCentroid ps toNat) fc) :
+    ∃ coll gs, convertMacro (0:α) 0 "arb" ps toNat = some coll ∧ bodyFacets "arb" ps toNat = some gs ∧ BodyOK coll gs := by
+  obtain ⟨parts, coll, gs, e1, e2, e3, hb⟩ := arb_list ok (arbVerts ps toNat) (arbCentroid ps toNat) (arbFacets ps toNat) hadm
+  refine ⟨coll.flatten, gs, ?_, ?_, hb⟩
+  · have hmn : (("arb" : String) == "arb") = true := by decide
+    simp only [convertMacro, hmn, if_true, arbParts_eq ps toNat hlen, e1, Option.bind_eq_bind, Option.bind_some, e2,
+      Option.pure_def]
+  · rw [bodyFacets_arb ps toNat hlen, e3]
+end T4V.C03
+
+namespace T4V.C03
+open T4V T4V.Surf T4V.Macro T4V.Tr T4V.C02
+
+/-- non-vacuity over ℝ: a tetrahedron (four vertices in use, two empty descriptors) -/
+noncomputable def tetraNat : ℝ → Nat := fun x =>
+  if x = 123 then 123 else if x = 124 then 124 else if x = 134 then 134 else if x = 234 then 234 else 0
+
+def tetra : List ℝ := [0, 0, 0, 1, 0, 0, 0, 1, 0, 0, 0, 1, 0, 0, 0, 0, 0, 0, 0, 0, 0, 0, 0, 0, 123, 124, 134, 234, 0, 0]
+
+theorem tetra_facets : arbFacets tetra tetraNat = [[1, 2, 3], [1, 2, 4], [1, 3, 4], [2, 3, 4]] := by
+  have e1 : tetraNat 123 = 123 := by simp [tetraNat]
+  have e2 : tetraNat 124 = 124 := by norm_num [tetraNat]
+  have e3 : tetraNat 134 = 134 := by norm_num [tetraNat]
+  have e4 : tetraNat 234 = 234 := by norm_num [tetraNat]
+  have e0 : tetraNat 0 = 0 := by norm_num [tetraNat]
+  have d1 : (digits 123).filter (· != 0) = [1, 2, 3] := by decide
+  have d2 : (digits 124).filter (· != 0) = [1, 2, 4] := by decide
+  have d3 : (digits 134).filter (· != 0) = [1, 3, 4] := by decide
+  have d4 : (digits 234).filter (· != 0) = [2, 3, 4] := by decide
+  have d0 : (digits 0).filter (· != 0) = [] := by decide
+  simp [arbFacets, tetra, e1, e2, e3, e4, e0, d1, d2, d3, d4, d0]
+
+theorem tetra_verts : arbVerts tetra tetraNat = [⟨0, 0, 0⟩, ⟨1, 0, 0⟩, ⟨0, 1, 0⟩, ⟨0, 0, 1⟩] := by
+  have hu : ((arbFacets tetra tetraNat).flatMap id).eraseDups.length = 4 := by rw [tetra_facets]; decide
+  unfold arbVerts
+  rw [hu]
+  simp [arbAllVerts, tetra, List.range, List.range.loop]
+
+example : ∃ coll gs, convertMacro (0:ℝ) 0 "arb" tetra tetraNat = some coll ∧ bodyFacets "arb" tetra tetraNat = some gs ∧
+    BodyOK coll gs := by
+  have hc : arbCentroid tetra tetraNat = ⟨1 / 4, 1 / 4, 1 / 4⟩ := by
+    unfold arbCentroid
+    rw [tetra_verts]
+    simp [V3.smul, V3.add, V3.zero]
+    norm_num
+  refine arb_ok transcOK_real tetraNat tetra rfl ?_
+  rw [tetra_facets, tetra_verts, hc]
+  intro fc hfc
+  simp only [List.mem_cons, List.mem_nil_iff, or_false] at hfc
+  rcases hfc with rfl | rfl | rfl | rfl
+  · exact ⟨1, 2, 3, [], _, _, _, rfl, rfl, rfl, rfl, by norm_num [V3.norm2, V3.dot, V3.cross, V3.sub],
+      by norm_num [planeOut, V3.dot, V3.cross, V3.sub]⟩
+  · exact ⟨1, 2, 4, [], _, _, _, rfl, rfl, rfl, rfl, by norm_num [V3.norm2, V3.dot, V3.cross, V3.sub],
+      by norm_num [planeOut, V3.dot, V3.cross, V3.sub]⟩
+  · exact ⟨1, 3, 4, [], _, _, _, rfl, rfl, rfl, rfl, by norm_num [V3.norm2, V3.dot, V3.cross, V3.sub],
+      by norm_num [planeOut, V3.dot, V3.cross, V3.sub]⟩
+  · exact ⟨2, 3, 4, [], _, _, _, rfl, rfl, rfl, rfl, by norm_num [V3.norm2, V3.dot, V3.cross, V3.sub],
+      by norm_num [planeOut, V3.dot, V3.cross, V3.sub]⟩
 end T4V.C03
